@@ -79,7 +79,7 @@ func wswritePayload(r *rng, max int) string {
 		n = 70000
 	}
 	if n <= 12 {
-		return hexs(r.bytes(n))
+		return wsdHex(r.bytes(n))
 	}
 	return fmt.Sprintf("@%d:%d", n, r.intn(251))
 }
@@ -109,7 +109,7 @@ func wswriteGen(r *rng, maxops int, w *bufio.Writer) {
 		case 1:
 			return "-"
 		default:
-			return hexs(r.bytes(1 + r.intn(125)))
+			return wsdHex(r.bytes(1 + r.intn(125)))
 		}
 	}
 	outstanding := 0
@@ -142,14 +142,14 @@ func wswriteGen(r *rng, maxops int, w *bufio.Writer) {
 			if async {
 				fmt.Fprintf(w, "! pump\n! pump\n")
 			}
-			fmt.Fprintf(w, "! %sframe 9 1 %s\n", pre, r.pick2("none", "-", "none"))
+			fmt.Fprintf(w, "! %sframe 9 1 %s\n", pre, wswPick(r, "none", "-", "none"))
 		case 7:
 			fmt.Fprintf(w, "! %sflush\n", pre)
 		case 8:
 			fmt.Fprintf(w, "! %sframe %d 1 %s\n", pre, r.pick(1, 2), wswritePayload(r, max))
 		case 9:
 			if r.intn(4) == 0 {
-				fmt.Fprintf(w, "! %sclose %d %s\n", pre, r.pick(1000, 1001, 1011), hexs(r.bytes(r.intn(20))))
+				fmt.Fprintf(w, "! %sclose %d %s\n", pre, r.pick(1000, 1001, 1011), wsdHex(r.bytes(r.intn(20))))
 			} else {
 				fmt.Fprintf(w, "! %swrite text %s\n", pre, wswritePayload(r, max))
 			}
@@ -174,7 +174,7 @@ func wswriteGen(r *rng, maxops int, w *bufio.Writer) {
 	}
 }
 
-func (r *rng) pick2(xs ...string) string { return xs[r.intn(len(xs))] }
+func wswPick(r *rng, xs ...string) string { return xs[r.intn(len(xs))] }
 
 // enum <depth>: every sequence of <depth> operations over a small alphabet (blocking mode), with a 1-byte-at-a-time
 // and a whole-write transport.
@@ -214,23 +214,23 @@ func wswriteBytes(s string) []byte {
 		}
 		return b
 	}
-	return unhex(s)
+	return wsdUnhex(s)
 }
 
-type keyReader struct {
+type wswKeyReader struct {
 	r    *rng
 	keys []string
 }
 
-func (k *keyReader) Read(p []byte) (int, error) {
+func (k *wswKeyReader) Read(p []byte) (int, error) {
 	copy(p, k.r.bytes(len(p)))
-	k.keys = append(k.keys, hexs(p))
+	k.keys = append(k.keys, wsdHex(p))
 	return len(p), nil
 }
 
 var wswriteIO *sonic.IO
 
-func wsErrName(err error) string {
+func wswErrName(err error) string {
 	switch {
 	case err == nil:
 		return "nil"
@@ -254,7 +254,7 @@ func wswriteRun(script []string, w *bufio.Writer) {
 	var (
 		s   *websocket.Stream
 		ms  *memStream
-		kr  = &keyReader{r: newRng(uint64(len(script))*7919 + 17)}
+		kr  = &wswKeyReader{r: newRng(uint64(len(script))*7919 + 17)}
 		cbs []string
 	)
 	rand.Reader = kr
@@ -269,7 +269,7 @@ func wswriteRun(script []string, w *bufio.Writer) {
 		if ms != nil {
 			outBefore, segBefore = len(ms.out), len(ms.writes)
 		}
-		cb := func(err error) { cbs = append(cbs, fmt.Sprintf("%d:%s", idx, wsErrName(err))) }
+		cb := func(err error) { cbs = append(cbs, fmt.Sprintf("%d:%s", idx, wswErrName(err))) }
 		build := func() *websocket.Frame {
 			fr := s.AcquireFrame()
 			flen = len(*fr)
@@ -310,21 +310,21 @@ func wswriteRun(script []string, w *bufio.Writer) {
 			case "defer":
 				ms.deferWrites = f[1] == "1"
 			case "write":
-				res = wsErrName(s.Write(wswriteBytes(f[2]), mt()))
+				res = wswErrName(s.Write(wswriteBytes(f[2]), mt()))
 			case "awrite":
 				s.AsyncWrite(wswriteBytes(f[2]), mt(), cb)
 			case "frame":
-				res = wsErrName(s.WriteFrame(build()))
+				res = wswErrName(s.WriteFrame(build()))
 			case "aframe":
 				s.AsyncWriteFrame(build(), cb)
 			case "flush":
-				res = wsErrName(s.Flush())
+				res = wswErrName(s.Flush())
 			case "aflush":
 				s.AsyncFlush(cb)
 			case "close":
-				res = wsErrName(s.Close(websocket.CloseCode(atoi(f[1])), string(unhex(f[2]))))
+				res = wswErrName(s.Close(websocket.CloseCode(atoi(f[1])), string(wsdUnhex(f[2]))))
 			case "aclose":
-				s.AsyncClose(websocket.CloseCode(atoi(f[1])), string(unhex(f[2])), cb)
+				s.AsyncClose(websocket.CloseCode(atoi(f[1])), string(wsdUnhex(f[2])), cb)
 			case "pump":
 				ms.pump()
 			default:
@@ -346,12 +346,12 @@ func wswriteRun(script []string, w *bufio.Writer) {
 			segs = append(segs, fmt.Sprint(n))
 		}
 		dst := s.VerifDst()
-		fmt.Fprintf(w, "< %s cbs %s wire %s segs %s pending %d dst %d\n", res, joinOr(cbs), hexs(ms.out[outBefore:]), joinOr(segs),
+		fmt.Fprintf(w, "< %s cbs %s wire %s segs %s pending %d dst %d\n", res, wswJoinOr(cbs), wsdHex(ms.out[outBefore:]), wswJoinOr(segs),
 			s.Pending(), dst.ReadLen()+dst.WriteLen())
 	}
 }
 
-func joinOr(xs []string) string {
+func wswJoinOr(xs []string) string {
 	if len(xs) == 0 {
 		return "-"
 	}
